@@ -186,6 +186,10 @@ def shared(ctx):
     from rules.engine import core
     from rules.props import c01
     core.import_rules(ctx, [c01.r2_exemption_table], "X01")
+    # "over the whole life of the chain": the marker is an entry of the coin tree, so it lasts exactly as long as nothing but the spend of a coin (remove_coin of an
+    # input, which a zero-address marker can never be) clears coin-tree entries — C20.R2: the tree is written only by insert_coin / remove_coin / insert_coin_count
+    from rules.props import c20
+    core.import_rules(ctx, [c20.r2_confinement], "X20")
 
 
 RULES = [r1_faucet_first, r2_mainnet, r3_dedup, r4_permanence, shared]
